@@ -111,7 +111,9 @@ def a64Arg (apple : Bool) (older : List Nat) (t : Nat) : FuncValue :=
     SSE vectors xmm0–2 unless the function is variadic; everything else goes to 4-byte stack slots (16-byte vectors aligned).
     A 64-bit integer occupies two consecutive slots (low half first). -/
 def x32Supported (gp : List Nat) (t : Nat) : Bool :=
-  (isInt t && (tySize t ≤ 4 || gp.isEmpty)) || isF32F64 t || isVec t || isMask t
+  -- 64-bit integers: cdecl/stdcall (all on the stack) and Microsoft __fastcall / __thiscall ("the first two DWORD or smaller
+  -- arguments ... are passed in ECX and EDX; all other arguments are passed on the stack"); GCC regparm pairs are not written
+  (isInt t && (tySize t ≤ 4 || gp.isEmpty || gp = [1, 2] || gp = [1])) || isF32F64 t || isVec t || isMask t
 
 def isSmallInt (t : Nat) : Bool := isInt t && tySize t ≤ 4
 
@@ -278,6 +280,9 @@ example : (argsFrom .aapcs64 false [] (List.replicate 8 tInt32 ++ [tInt8, tInt8,
 example : (argsFrom .aapcs64 false [] (List.replicate 8 tFloat64 ++ [tFloat64, 79])).drop 8 = [[.stack tFloat64 0], [.stack 79 16]] := by decide +kernel
 example : (argsFrom .sysv false [] (List.replicate 8 tFloat64 ++ [tFloat32, tFloat32, 79])).drop 8 =
     [[.stack tFloat32 0], [.stack tFloat32 8], [.stack 79 16]] := by decide +kernel
+-- __fastcall f(int a, long long b, int c): ECX, the whole 64-bit value on the stack, EDX
+example : argsFrom (.x32 [1, 2] true) false [] [tInt32, tInt64, tInt32] =
+    [[.reg tInt32 rtGp32 1], [.stack tUInt32 0, .stack tInt32 4], [.reg tInt32 rtGp32 2]] := by decide +kernel
 -- __fastcall f(int a, double b, int c, int d): ECX, stack 0, EDX, stack 8
 example : argsFrom (.x32 [1, 2] true) false [] [tInt32, tFloat64, tInt32, tInt32] =
     [[.reg tInt32 rtGp32 1], [.stack tFloat64 0], [.reg tInt32 rtGp32 2], [.stack tInt32 8]] := by decide +kernel
